@@ -354,6 +354,13 @@ def check_C09(ctx):
         if s is None:
             raise Infra('unknown scenario ' + sid)
         clean = by[s['twin']] if s['twin'] in by else by[s['twin'].rsplit('#', 1)[0]]
+        if not s.get('inject'):        # a stream of skipped packets (flood): no single packet to isolate, the scenario itself is re-run
+            lbl = s['label']
+            if lbl not in seen_lbl:
+                seen_lbl.add(lbl)
+                one = dict(s); one['id'] = s['id'] + '/again'; one['twin'] = clean['id']
+                singles.append(one)
+            continue
         for k, inj in enumerate(s['inject']):
             lbl = '%s/%s' % (s['variant'], inj['tag'])
             if lbl in seen_lbl:
